@@ -84,6 +84,7 @@ struct Thr {
   uint32_t nops;
   uint64_t oldv[2];
   const void* pc;
+  int order;
 };
 
 enum { TS_NONE = 0, TS_STARTING, TS_RUNNABLE, TS_BLOCKED, TS_FINISHED };
@@ -300,6 +301,7 @@ static void give_token(Thr* to) {
 }
 
 // ---------------------------------------------------------------------------------------------
+static uint64_t wm_hash_fwd();
 static uint64_t state_hash() {
   uint64_t h = mix4(g.loc_xor, g.now_ns, (uint64_t)g.running, (uint64_t)(g.spur_left * 64 + g.casfail_left));
   for (int i = 0; i < MC_OPT_COUNT; i++) h = mix2(h, (uint64_t)g.opts[i]);
@@ -323,6 +325,7 @@ static uint64_t state_hash() {
   }
   for (int i = 0; i < NSEM; i++)
     if (g.sem[i].used) h += mix3(0x5e3, loc_get(g.sem[i].addr, 0)->name, (uint64_t)g.sem[i].count);
+  if (g.opts[MC_OPT_WM]) h += wm_hash_fwd();
   return mix64(h);
 }
 
@@ -538,6 +541,152 @@ static void reschedule(Thr* me) {
 }
 
 // ---------------------------------------------------------------------------------------------
+// Weak-memory layer (opt.wm=1): a view machine in the style of promise-free release/acquire models.
+// Every atomic location keeps its stores in modification order; each thread has a vector clock. A
+// non-RMW, non-seq_cst load may read any store that is not older than (a) the newest store of that
+// location the thread has already observed (coherence) and (b) the newest store that happens-before
+// the load. Reading the latest store is the default; an older one is a deviation. Acquire loads and
+// fences join the clock released with the store they read, release stores and fences publish the
+// writer's clock, RMWs read the latest store and continue release sequences, seq_cst operations are
+// modelled stronger than the standard requires (they exchange a global clock and read only the latest
+// store). Every behaviour produced is allowed by C++11; load buffering is not produced.
+#define WM_T 8
+#define NWMSTORE 65536
+struct WmStore {
+  uint64_t v[2];
+  uint64_t id;
+  uint32_t rel[WM_T];
+  uint32_t wclk;
+  int32_t prev;
+  uint32_t idx;
+  int8_t writer;
+};
+struct WmLoc {
+  int32_t last;
+  uint32_t count;
+  uint32_t seen[WM_T];
+};
+struct WmThr {
+  uint32_t vc[WM_T], acqp[WM_T], relf[WM_T];
+};
+static WmStore wm_store[NWMSTORE];
+static int wm_nstore;
+static WmLoc wm_loc[NLOC];
+static WmThr wm_thr[WM_T];
+static uint32_t wm_sc[WM_T];
+static int wm_touched[2048];
+static int wm_ntouched;
+
+static inline int wm_on() { return g.opts[MC_OPT_WM] != 0; }
+static inline void vc_join(uint32_t* a, const uint32_t* b) {
+  for (int i = 0; i < WM_T; i++)
+    if (b[i] > a[i]) a[i] = b[i];
+}
+static void wm_reset() {
+  wm_nstore = 0;
+  memset(wm_loc, 0, sizeof wm_loc);
+  memset(wm_thr, 0, sizeof wm_thr);
+  memset(wm_sc, 0, sizeof wm_sc);
+  wm_ntouched = 0;
+}
+static WmLoc* wm_of(Loc* L) { return &wm_loc[L - g.loc]; }
+static int wm_new_store(WmLoc* W, uint64_t v0, uint64_t v1, uint64_t id, int writer, uint32_t wclk) {
+  if (wm_nstore >= NWMSTORE) finish_process(MC_ST_ENGINE, "wm: store history full");
+  WmStore* s = &wm_store[wm_nstore];
+  memset(s, 0, sizeof *s);
+  s->v[0] = v0;
+  s->v[1] = v1;
+  s->id = id;
+  s->writer = (int8_t)writer;
+  s->wclk = wclk;
+  s->prev = W->count ? W->last : -1;
+  s->idx = W->count;
+  W->last = wm_nstore;
+  W->count++;
+  return wm_nstore++;
+}
+// make sure the history of L ends with a store holding the bytes that are in memory right now
+static void wm_sync(Loc* L, WmLoc* W, uint64_t v0, uint64_t v1) {
+  if (W->count && wm_store[W->last].v[0] == v0 && wm_store[W->last].v[1] == v1) return;
+  // first touch, or the object was (re)initialised by non-atomic code: start a new history
+  if (W->count == 0 && wm_ntouched < 2048) wm_touched[wm_ntouched++] = (int)(L - g.loc);
+  W->count = 0;
+  memset(W->seen, 0, sizeof W->seen);
+  wm_new_store(W, v0, v1, L->last_store, -1, 0);
+}
+static inline int ord_acq(int o) { return o == 1 || o == 2 || o == 4 || o == 5; }
+static inline int ord_rel(int o) { return o == 3 || o == 4 || o == 5; }
+static void wm_sc_exchange(WmThr* T) {
+  vc_join(wm_sc, T->vc);
+  vc_join(T->vc, wm_sc);
+}
+static void wm_check_thread(Thr* me) {
+  if (me->id >= WM_T) finish_process(MC_ST_ENGINE, "wm: more than %d threads", WM_T);
+}
+// read side of an operation that reads store s
+static void wm_read_from(Thr* me, WmLoc* W, WmStore* s, int order) {
+  WmThr* T = &wm_thr[me->id];
+  if (s->idx > W->seen[me->id]) W->seen[me->id] = s->idx;
+  if (ord_acq(order))
+    vc_join(T->vc, s->rel);
+  else
+    vc_join(T->acqp, s->rel);
+  if (order == 5) wm_sc_exchange(T);
+}
+// write side: appends a store by `me`
+static void wm_write(Thr* me, Loc* L, WmLoc* W, uint64_t v0, uint64_t v1, uint64_t id, int order, int is_rmw) {
+  WmThr* T = &wm_thr[me->id];
+  uint32_t prevrel[WM_T];
+  memset(prevrel, 0, sizeof prevrel);
+  if (is_rmw && W->count) memcpy(prevrel, wm_store[W->last].rel, sizeof prevrel);
+  if (order == 5) wm_sc_exchange(T);
+  T->vc[me->id]++;
+  int si = wm_new_store(W, v0, v1, id, me->id, T->vc[me->id]);
+  WmStore* s = &wm_store[si];
+  if (ord_rel(order))
+    memcpy(s->rel, T->vc, sizeof s->rel);
+  else
+    memcpy(s->rel, T->relf, sizeof s->rel);
+  vc_join(s->rel, prevrel);
+  W->seen[me->id] = s->idx;
+  (void)L;
+}
+static void wm_fence(Thr* me, int order) {
+  WmThr* T = &wm_thr[me->id];
+  if (ord_acq(order)) vc_join(T->vc, T->acqp);
+  if (order == 5) wm_sc_exchange(T);
+  if (ord_rel(order)) memcpy(T->relf, T->vc, sizeof T->relf);
+}
+// generic synchronisation objects (mutex, semaphore, guard, thread start/join) as release/acquire pairs
+static void wm_release_on(Thr* me, Loc* L) {
+  if (!wm_on()) return;
+  wm_check_thread(me);
+  WmLoc* W = wm_of(L);
+  if (W->count == 0 && wm_ntouched < 2048) wm_touched[wm_ntouched++] = (int)(L - g.loc);
+  wm_write(me, L, W, 0, 0, L->last_store, 3, 1);
+}
+static void wm_acquire_on(Thr* me, Loc* L) {
+  if (!wm_on()) return;
+  wm_check_thread(me);
+  WmLoc* W = wm_of(L);
+  if (W->count) wm_read_from(me, W, &wm_store[W->last], 2);
+}
+static uint64_t wm_hash_fwd() {
+  uint64_t h = 0;
+  for (int t = 0; t < g.nthr && t < WM_T; t++)
+    for (int i = 0; i < WM_T; i++) h = mix2(h, ((uint64_t)wm_thr[t].vc[i] << 40) ^ ((uint64_t)wm_thr[t].acqp[i] << 20) ^ wm_thr[t].relf[i]);
+  for (int i = 0; i < WM_T; i++) h = mix2(h, wm_sc[i]);
+  uint64_t x = 0;
+  for (int k = 0; k < wm_ntouched; k++) {
+    WmLoc* W = &wm_loc[wm_touched[k]];
+    uint64_t lh = mix2(g.loc[wm_touched[k]].name, W->count);
+    for (int i = 0; i < WM_T; i++) lh = mix2(lh, W->seen[i]);
+    x += mix64(lh);
+  }
+  return mix2(h, x);
+}
+
+// ---------------------------------------------------------------------------------------------
 // API used by the shim
 extern "C" int mc_on(void) { return self_thr != 0; }
 extern "C" int mc_self_id(void) { return self_thr ? self_thr->id : -1; }
@@ -555,7 +704,7 @@ static inline void sched_point(Thr* me, int kind, const volatile void* addr) {
 extern "C" void mc_pre(int kind, const volatile void* addr, unsigned size, int order) {
   Thr* me = self_thr;
   if (!me) return;
-  (void)order;
+  me->order = order;
   me->pc = __builtin_return_address(0);
   sched_point(me, kind, addr);
   if (addr) me->oldv[0] = read_bytes(addr, size, &me->oldv[1]);
@@ -569,13 +718,15 @@ static void spin_yield(Thr* me) {
   me->fresh = 1;
 }
 
-extern "C" void mc_post(int kind, const volatile void* addr, unsigned size) {
-  Thr* me = self_thr;
-  if (!me) return;
+static void post_impl(Thr* me, int kind, const volatile void* addr, unsigned size, void* result, const void* pc) {
   me->pend_kind = MC_K_NONE;
   if (kind == MC_K_FENCE) {
     me->hist = mix3(me->hist, kind, me->nops);
     me->nops++;
+    if (wm_on()) {
+      wm_check_thread(me);
+      wm_fence(me, me->order);
+    }
     return;
   }
   uint64_t hi;
@@ -583,15 +734,57 @@ extern "C" void mc_post(int kind, const volatile void* addr, unsigned size) {
   int changed = (nv != me->oldv[0]) || (hi != me->oldv[1]);
   int mutating = (kind == MC_K_STORE) || changed;
   Loc* L = loc_get(addr, me);
+  uint64_t read_id = L->last_store;
+  if (wm_on()) {
+    wm_check_thread(me);
+    WmLoc* W = wm_of(L);
+    wm_sync(L, W, me->oldv[0], me->oldv[1]); // history must end with what was in memory before the operation
+    WmStore* last = &wm_store[W->last];
+    if (kind == MC_K_LOAD && me->order != 5 && result && size <= 16) {
+      // oldest store this load may still read
+      WmThr* T = &wm_thr[me->id];
+      uint32_t lo = W->seen[me->id];
+      for (int si = W->last; si >= 0; si = wm_store[si].prev) {
+        WmStore* s = &wm_store[si];
+        if (s->idx <= lo) break;
+        if (s->writer >= 0 && s->wclk <= T->vc[(int)s->writer]) {
+          lo = s->idx; // this store happens-before the load: nothing older is readable
+          break;
+        }
+      }
+      int n = (int)(last->idx - lo) + 1;
+      if (n > 8) n = 8;
+      int c = n > 1 ? choose_alt(MC_K_STALE, n, 0xfe) : 0;
+      WmStore* s = last;
+      for (int k = 0; k < c; k++) s = &wm_store[s->prev];
+      if (c) {
+        unsigned char* out = (unsigned char*)result;
+        const unsigned char* in = (const unsigned char*)s->v;
+        for (unsigned i = 0; i < size; i++) out[i] = in[i];
+        nv = s->v[0];
+        hi = s->v[1];
+        read_id = s->id;
+        if (g.verbose) vlog("   [T%d reads an older store of loc%04x: %llx]\n", me->id, (unsigned)(L->name & 0xffff), (unsigned long long)nv);
+      }
+      wm_read_from(me, W, s, me->order);
+    } else if (kind != MC_K_STORE) {
+      wm_read_from(me, W, last, me->order); // RMW / CAS / seq_cst load: reads the latest store
+    }
+  }
   if (g.verbose)
     vlog("[%llu] T%d %s loc%04x %llx -> %llx%s\n", (unsigned long long)g.steps, me->id,
          kind == MC_K_LOAD ? "load " : kind == MC_K_STORE ? "store" : kind == MC_K_RMW ? "rmw  " : "cas  ",
          (unsigned)(L->name & 0xffff), (unsigned long long)me->oldv[0], (unsigned long long)nv, mutating ? "" : " (no change)");
-  if (kind != MC_K_STORE) me->hist = mix4(me->hist, kind, L->name, mix2(L->last_store, canon_val(me->oldv[0], size)));
+  if (kind != MC_K_STORE) me->hist = mix4(me->hist, kind, L->name, mix2(read_id, canon_val(kind == MC_K_LOAD ? nv : me->oldv[0], size)));
   if (mutating) {
     uint64_t id = mix3(0x570e, me->id, me->nops);
     g.loc_xor ^= mix2(L->name, L->last_store) ^ mix2(L->name, id);
     L->last_store = id;
+    if (wm_on()) {
+      uint64_t h2;
+      uint64_t cur = read_bytes(addr, size, &h2);
+      wm_write(me, L, wm_of(L), cur, h2, id, me->order, kind != MC_K_STORE);
+    }
     me->hist = mix3(me->hist, 0x57, L->name);
     me->nops++;
     g.wver++;
@@ -605,7 +798,6 @@ extern "C" void mc_post(int kind, const volatile void* addr, unsigned size) {
     me->spin_wver = g.wver;
     me->nspin = 0;
   }
-  const void* pc = __builtin_return_address(0);
   for (int i = 0; i < me->nspin; i++)
     if (me->spin[i].pc == pc && me->spin[i].addr == (const void*)addr && me->spin[i].val == nv) {
       spin_yield(me);
@@ -615,6 +807,17 @@ extern "C" void mc_post(int kind, const volatile void* addr, unsigned size) {
     me->spin[me->nspin++] = SpinEnt{pc, (const void*)addr, nv};
   else
     me->spin[g.steps % SPINSET] = SpinEnt{pc, (const void*)addr, nv};
+}
+
+extern "C" void mc_post(int kind, const volatile void* addr, unsigned size) {
+  Thr* me = self_thr;
+  if (!me) return;
+  post_impl(me, kind, addr, size, 0, __builtin_return_address(0));
+}
+extern "C" void mc_post_load(const volatile void* addr, unsigned size, void* result) {
+  Thr* me = self_thr;
+  if (!me) return;
+  post_impl(me, MC_K_LOAD, addr, size, result, __builtin_return_address(0));
 }
 
 extern "C" int mc_cas_weak_should_fail(const volatile void* addr) {
@@ -640,6 +843,7 @@ extern "C" void mc_mutex_lock(void* m) {
   uint64_t id = mix3(0x10cc, me->id, me->nops);
   g.loc_xor ^= mix2(L->name, L->last_store) ^ mix2(L->name, id);
   L->last_store = id;
+  wm_acquire_on(me, L);
   me->nops++;
   me->pend_kind = MC_K_NONE;
   g.wver++;
@@ -663,6 +867,7 @@ extern "C" int mc_mutex_trylock(void* m) {
   uint64_t id = mix3(0x10cc, me->id, me->nops);
   g.loc_xor ^= mix2(L->name, L->last_store) ^ mix2(L->name, id);
   L->last_store = id;
+  wm_acquire_on(me, L);
   g.wver++;
   wake_spinners();
   vlog("[%llu] T%d trylock loc%04x ok\n", (unsigned long long)g.steps, me->id, (unsigned)(L->name & 0xffff));
@@ -685,6 +890,7 @@ extern "C" void mc_mutex_unlocked(void* m) {
   uint64_t id = mix3(0x0c10, me->id, me->nops);
   g.loc_xor ^= mix2(L->name, L->last_store) ^ mix2(L->name, id);
   L->last_store = id;
+  wm_release_on(me, L);
   me->hist = mix3(me->hist, MC_K_UNLOCK, L->name);
   me->nops++;
   me->pend_kind = MC_K_NONE;
@@ -726,6 +932,13 @@ extern "C" int mc_thread_prepare(void) {
   t->id = g.nthr++;
   t->state = TS_STARTING;
   t->hist = mix3(0x7, me->hist, me->nops);
+  if (wm_on()) {
+    wm_check_thread(me);
+    wm_check_thread(t);
+    wm_thr[me->id].vc[me->id]++;
+    memset(&wm_thr[t->id], 0, sizeof wm_thr[0]);
+    memcpy(wm_thr[t->id].vc, wm_thr[me->id].vc, sizeof wm_thr[0].vc);
+  }
   me->hist = mix3(me->hist, MC_K_SPAWN, t->id);
   me->nops++;
   me->pend_kind = MC_K_NONE;
@@ -762,6 +975,10 @@ extern "C" void mc_thread_join(int id) {
   me->join_target = id;
   sched_point(me, MC_K_JOIN, 0);
   me->hist = mix4(me->hist, MC_K_JOIN, id, g.thr[id].hist);
+  if (wm_on()) {
+    wm_check_thread(me);
+    vc_join(wm_thr[me->id].vc, wm_thr[id].vc);
+  }
   me->nops++;
   me->pend_kind = MC_K_NONE;
   vlog("[%llu] T%d joined T%d\n", (unsigned long long)g.steps, me->id, id);
@@ -1129,6 +1346,7 @@ static int model_sem_wait(sem_t* s, int try_only, uint64_t deadline) {
   uint64_t id = mix3(0x5e, me->id, me->nops);
   g.loc_xor ^= mix2(L->name, L->last_store) ^ mix2(L->name, id);
   L->last_store = id;
+  wm_acquire_on(me, L);
   g.wver++;
   wake_spinners();
   vlog("[%llu] T%d sem_wait ok (count now %ld)\n", (unsigned long long)g.steps, me->id, m->count);
@@ -1171,6 +1389,7 @@ extern "C" int sem_post(sem_t* s) {
   uint64_t id = mix3(0x5f, me->id, me->nops);
   g.loc_xor ^= mix2(L->name, L->last_store) ^ mix2(L->name, id);
   L->last_store = id;
+  wm_release_on(me, L);
   me->hist = mix3(me->hist, MC_K_SEM_POST, L->name);
   me->nops++;
   me->pend_kind = MC_K_NONE;
@@ -1193,6 +1412,7 @@ extern "C" int __wrap___cxa_guard_acquire(void* gp) {
   int r = __real___cxa_guard_acquire(gp);
   Loc* L = loc_get(gp, me);
   me->hist = mix4(me->hist, MC_K_GUARD, L->name, mix2(L->last_store, (uint64_t)r));
+  wm_acquire_on(me, L);
   me->nops++;
   if (r) {
     Guard* gd = guard_get(gp, 1);
@@ -1212,6 +1432,7 @@ static void guard_done(void* gp) {
   uint64_t id = mix3(0x6a, me->id, me->nops);
   g.loc_xor ^= mix2(L->name, L->last_store) ^ mix2(L->name, id);
   L->last_store = id;
+  wm_release_on(me, L);
   me->nops++;
   g.wver++;
   wake_spinners();
@@ -1241,6 +1462,7 @@ static void reset_state() {
   memset(g_track, 0, sizeof g_track);
   g_track_live = 0;
   g_track_total = 0;
+  if (keep.opts[MC_OPT_WM]) wm_reset();
 }
 
 // Runs one execution in this process. Returns MC_ST_OK after a clean execution (all modelled threads
